@@ -74,7 +74,16 @@ func init() {
 }
 
 func init() {
-	Checks["C19"] = &Check{Level: "model_checking", Run: CheckC19, QuickBudget: 240, ThoroughBudget: 1500, ReplayOps: c19Replay}
+	Checks["C19"] = &Check{Level: "model_checking", Run: CheckC19, QuickBudget: 240, ThoroughBudget: 1500, ReplayOps: c19Replay,
+		ReplayBody: func(h string) explore.Body {
+			for _, sc := range c19SchedScenarios() {
+				if "C19s/"+sc.name == h {
+					sc := sc
+					return sc.body
+				}
+			}
+			return nil
+		}}
 }
 
 func init() {
@@ -309,6 +318,10 @@ func RaceBodies(prop string) map[string]explore.Body {
 		out["memory-3-stores-reader"] = c13SchedBody(3, true)
 	case "C15":
 		out["async-caches"] = c15RaceBody
+		for _, sc := range c15SchedScenarios(true) {
+			sc := sc
+			out[sc.name] = sc.body
+		}
 	}
 	return out
 }
